@@ -53,6 +53,21 @@ def generate(prop, rng, run, tier):
             weights[k] = 0
     if rng.random() < 0.15:
         weights["chart"] = 0
+    if fmt == "sm" and start != "corpus" and rng.random() < 0.04:
+        # two charts whose components differ only in where a literal colon sits
+        a = rng.choice(["Remix", "x", ""])
+        twin = [["dance-single", a, "Edit:Hard", "9", "0,0", "0000"],
+                ["dance-single", (a + ":Edit"), "Hard", "9", "0,0", "0000"]]
+        rng.shuffle(twin)
+        for f in twin:
+            seq.append({"op": "charts_append", "chart": {"from": "fields", "fields": f}})
+            nch += 1
+        if rng.random() < 0.5:
+            seq.append({"op": "charts_append", "chart": {"from": "fields", "fields":
+                                                         ["a", "b", "c", "1", "0", "N:x"]}})
+            seq.append({"op": "charts_append", "chart": {"from": "fields", "fields":
+                                                         ["a", "b", "c", "1", "0", "N"], "extra": ["x"]}})
+            nch += 2
     if many_charts:
         # many charts at once (counts random edit sequences rarely reach); now and then more
         # than a thousand tiny ones (deeper than Python's default recursion limit)
@@ -732,6 +747,44 @@ def check_c18_state(sc, res, sf, model, idx, op, lib, last_touched):
     return True
 
 
+def _c18_companions(lib, fmt):
+    """Other objects of the same classes, alive for the whole session and read right before
+    the session's object is: one that holds only the legacy alias of every aliased property,
+    one that holds only the standard key.  What was resolved for them must not leak."""
+    cls = lib.SMSimfile if fmt == "sm" else lib.SSCSimfile
+    out = []
+    for which in ("alias", "standard"):
+        o = cls(string="")
+        if which == "alias":
+            o["ANIMATIONS"] = "companion-anim"
+            o["FREEZES"] = "companion-freezes"
+            expect = {"bgchanges": "companion-anim",
+                      "stops": "companion-freezes" if fmt == "sm" else None}
+        else:
+            o["BGCHANGES"] = "companion-bg"
+            o["STOPS"] = "companion-stops"
+            expect = {"bgchanges": "companion-bg", "stops": "companion-stops"}
+        out.append((o, expect))
+        if fmt == "ssc":
+            c = lib.SSCChart()
+            c["NOTES2" if which == "alias" else "NOTES"] = "companion-notes"
+            out.append((c, {"notes": "companion-notes"}))
+    return out
+
+
+def _read_companions(res, companions, idx):
+    # the alias-only companion is read last (right before the session's object) on even
+    # steps, the standard-only one on odd steps
+    for obj, expect in (companions if idx % 2 else list(reversed(companions))):
+        for attr, want in expect.items():
+            got = getattr(obj, attr)
+            if got != want:
+                res.violate("C18", "attribute-of-another-object-disagrees-with-its-keys", at=idx,
+                            attr=attr, got=got, expected=want)
+                return False
+    return True
+
+
 # -------------------------------------------------------------------- execute
 def execute(sc):
     res = RunResult()
@@ -753,6 +806,7 @@ def execute(sc):
     model = simfile_from_plain(ops.real_plain(sf, lib))
     guard = sc.get("guard", True)
     prev_kind = "start"
+    companions = _c18_companions(lib, fmt) if prop == "C18" else None
     pre = sc.get("pre", 0)
     for idx, op in enumerate(sc["ops"]):
         name = op["op"]
@@ -847,6 +901,8 @@ def execute(sc):
             if r[0] != r[1]:
                 res.violate("C18", "operation-outcome-differs", at=idx, op=op, got=r[0],
                             expected=r[1], keys=_keys_of(model, op))
+                break
+            if companions is not None and not _read_companions(res, companions, idx):
                 break
             if not check_c18_state(sc, res, sf, model, idx, op, lib, None):
                 break
